@@ -2429,7 +2429,7 @@ fn run_limit_case(c: &LCase, listener: &TcpListener) -> Value {
 		let sig = |class: &str, ev: &str, c: &LCase| -> String {
 			if class == "count_under" {
 				// one defect class: the decoder result is accepted without checking that the body was used up
-				format!("oracle=count_vs_length;class=count_below_content;event={}", ev)
+				format!("oracle=count_vs_length;class=count_below_content;type={};event={}", type_name(c.ty), ev)
 			} else if class.starts_with("count") {
 				format!("oracle=count_vs_length;class=count_above_content;type={};event={}", type_name(c.ty), ev)
 			} else {
@@ -2728,7 +2728,7 @@ fn parent_limits(run: &Run, scale: u32, mainnet: bool) {
 				for x in vs {
 					let s = x[0].as_str().unwrap_or("?");
 					let w = x[1].as_str().unwrap_or("");
-					if s.contains("class=count_below_content;event=message_yielded") {
+					if s.contains("class=count_below_content;") && s.ends_with("event=message_yielded") {
 						below.push((s.to_string(), format!("{} {}", ty, bd)));
 						continue;
 					}
@@ -2740,16 +2740,21 @@ fn parent_limits(run: &Run, scale: u32, mainnet: bool) {
 		}
 	}
 	if !below.is_empty() {
+		// one violation per message type (the signature names the type: the recorded finding covers the types whose
+		// decoders ignore trailing bytes on the unchanged tree and no other)
 		below.sort();
-		let cases: Vec<String> = below.iter().map(|(_, c)| c.clone()).collect();
-		run.violation(
-			&below[0].0,
-			&format!(
-				"frames whose item count is smaller than the items present in the (within-limit) body are read as messages, the trailing bytes are ignored (codec::decode_message does not check that the decoder used the whole body): {}",
-				cases.join("; ")
-			),
-			json!({"cases": cases}),
-		);
+		let sigs: std::collections::BTreeSet<String> = below.iter().map(|(s, _)| s.clone()).collect();
+		for sg in sigs {
+			let cases: Vec<String> = below.iter().filter(|(s, _)| *s == sg).map(|(_, c)| c.clone()).collect();
+			run.violation(
+				&sg,
+				&format!(
+					"frames whose item count is smaller than the items present in the (within-limit) body are read as messages, the trailing bytes are ignored (codec::decode_message does not check that the decoder used the whole body): {}",
+					cases.join("; ")
+				),
+				json!({"cases": cases}),
+			);
+		}
 	}
 	run.set_max("refusal_max_bytes_consumed", max_consumed_refused);
 	run.set_max("refusal_max_single_allocation", max_alloc_refused);
